@@ -1,4 +1,328 @@
-import StreamzVerif.Model.Graph
+import StreamzVerif.Proofs.Propagate
+/-
+C01, graph level: the interpreter `emitAt / deliver / update / runEffs` (= `Stream._emit`, core.py 429-462)
+computes the dataflow semantics.  For every graph `G`, every fuel, every start state `S` whose topology is a
+DAG (`Acyclic`: every edge goes from a node to a later-created node — what the fluent API builds, and what
+`slice` detaching itself preserves), every entry node, value and metadata, if the run ends normally
+(`err = none`: no exception and fuel sufficed; `carried = none`: no exception captured by `partition`'s
+coroutine) then
+
+  * `run_projects`            every node's final state is its local `upd` folded over exactly the arrivals
+                              the log shows at that node, in order;
+  * `emits_are_local_outputs` every node's emissions are exactly the outputs of those local steps, in order
+                              (plus the injected top-level emission at the entry node);
+  * `emit_delivers_snapshot`, `edge_consistency`, `edge_no_loss_dup_reorder`
+                              every emission is handed to every attached branch, siblings in attachment
+                              order, nothing lost, duplicated or reordered along any edge;
+  * `arrivals_above`          depth-first: everything caused by an emission at `n` happens strictly downstream;
+  * `fuel_mono`, `dag_terminates`   fuel is harmless.
+
+The per-kind list-level meanings of `localRun` are proved in `Proofs/NodeSem.lean` (other file).
+-/
 namespace StreamzVerif.Graph
-theorem placeholder_c01 : True := trivial
+
+variable (G : NodeId → Kind)
+
+/-- The fluent API only ever builds DAGs in this sense, and the only topology change a run can make
+(`slice._check_end` removing the node from its upstreams) keeps it one. -/
+theorem acyclic_detach {S : State} (h : Acyclic S) (d : NodeId) : Acyclic (detachNode d S) :=
+  h.detachNode d
+
+/-- A successful run leaves the topology a DAG, and every downstream list is a sub-list (same order) of what it
+was. -/
+theorem acyclic_preserved {fuel : Nat} {n : NodeId} {v : Val} {md : Meta} {S : State}
+    (he : (emitAt G fuel n v md S).err = none) (hc : (emitAt G fuel n v md S).carried = none) :
+    (∀ u, ((emitAt G fuel n v md S).st.downs u).Sublist (S.downs u)) ∧
+      (Acyclic S → Acyclic (emitAt G fuel n v md S).st) := by
+  have hr := run_of_ok G fuel (.emit n v md) S ⟨he, hc⟩
+  exact ⟨run_downs_sublist G hr, fun hA => hA.run G hr⟩
+
+/-- More fuel never changes a run that did not run out of fuel: the driver's fixed large fuel is harmless. -/
+theorem fuel_mono {f f' : Nat} {n : NodeId} {v : Val} {md : Meta} {S : State} (hle : f ≤ f')
+    (h : (emitAt G f n v md S).err ≠ some .outOfFuel) : emitAt G f' n v md S = emitAt G f n v md S :=
+  emitAt_fuel_mono G hle h
+
+/-- Depth-first, no re-entrance: in a DAG the log of `_emit` at `n` is the `emit n` event followed only by
+arrivals at nodes `> n` (coming from nodes `≥ n`) and emissions of nodes `> n`. -/
+theorem arrivals_above {fuel : Nat} {n : NodeId} {v : Val} {md : Meta} {S : State} (hA : Acyclic S)
+    (he : (emitAt G fuel n v md S).err = none) (hc : (emitAt G fuel n v md S).carried = none) :
+    ∃ rest, (emitAt G fuel n v md S).log = Ev.emit n v md :: rest ∧
+      (∀ d who v' md', Ev.arrive d who v' md' ∈ rest → n < d ∧ n ≤ who) ∧
+      (∀ m v' md', Ev.emit m v' md' ∈ rest → n < m) := by
+  obtain ⟨rest, h1, h2⟩ := run_bounds G (run_of_ok G fuel (.emit n v md) S ⟨he, hc⟩) hA
+  exact ⟨rest, h1, fun d who v' md' hm => h2 _ hm, fun m v' md' hm => h2 _ hm⟩
+
+/-- **Projection theorem.**  After a successful `_emit` every node's state is its own `upd` folded over exactly
+the arrivals at that node, in log order (sinks: state never changes). -/
+theorem run_projects {fuel : Nat} {n : NodeId} {v : Val} {md : Meta} {S : State} (hA : Acyclic S)
+    (he : (emitAt G fuel n v md S).err = none) (hc : (emitAt G fuel n v md S).carried = none) (i : NodeId) :
+    (emitAt G fuel n v md S).st.loc i = replay G i (S.loc i) (arrivalsAt i (emitAt G fuel n v md S).log) :=
+  run_proj G (run_of_ok G fuel (.emit n v md) S ⟨he, hc⟩) hA i
+
+/-- The same for one `downstream.update(x, who, metadata)` call: the arrival at `d` is the head of the log,
+`d` is not re-entered, and every node (including `d`) ends in the replay of its arrivals. -/
+theorem update_projects {fuel : Nat} {d who : NodeId} {v : Val} {md : Meta} {S : State} (hA : Acyclic S)
+    (he : (update G fuel d who v md S).err = none) (hc : (update G fuel d who v md S).carried = none) :
+    (∃ rest, (update G fuel d who v md S).log = Ev.arrive d who v md :: rest ∧ arrivalsAt d rest = []) ∧
+    (update G fuel d who v md S).st.loc d = finalLoc (upd (G d) (S.loc d) who v md).effs (S.loc d) ∧
+    ∀ i, (update G fuel d who v md S).st.loc i
+      = replay G i (S.loc i) (arrivalsAt i (update G fuel d who v md S).log) := by
+  have hr := run_of_ok G fuel (.update d who v md) S ⟨he, hc⟩
+  obtain ⟨rest, h1, h2⟩ := run_bounds G hr hA
+  have hp := run_proj G hr hA
+  have h3 : arrivalsAt d rest = [] := h2.arrivalsAt_nil (Nat.lt_succ_self _)
+  refine ⟨⟨rest, h1, h3⟩, ?_, hp⟩
+  have := hp d
+  simp only [interp] at this h1
+  rw [this, h1, arrivalsAt_cons_arrive, if_pos rfl, h3]; rfl
+
+/-- The body of an update (and `collect.flush`, `flushAt`): the node's own state is the last `.set`, every other
+node replays its arrivals. -/
+theorem runEffs_projects {fuel : Nat} {d : NodeId} {es : List Eff} {S : State} (hA : Acyclic S)
+    (he : (runEffs G fuel d es S).err = none) (hc : (runEffs G fuel d es S).carried = none) :
+    (runEffs G fuel d es S).st.loc d = finalLoc es (S.loc d) ∧
+    ∀ i, i ≠ d → (runEffs G fuel d es S).st.loc i
+      = replay G i (S.loc i) (arrivalsAt i (runEffs G fuel d es S).log) := by
+  have hp := run_proj G (run_of_ok G fuel (.effs d es) S ⟨he, hc⟩) hA
+  exact ⟨hp.2, hp.1⟩
+
+/-- The emissions of node `i` in the log are, in order, the concatenation of the local outputs of its `upd`
+over its arrivals (state threaded), preceded at the entry node by the injected emission. -/
+theorem emits_are_local_outputs {fuel : Nat} {n : NodeId} {v : Val} {md : Meta} {S : State} (hA : Acyclic S)
+    (he : (emitAt G fuel n v md S).err = none) (hc : (emitAt G fuel n v md S).carried = none) (i : NodeId) :
+    emitsOf i (emitAt G fuel n v md S).log =
+      (if n = i then [(v, md)] else []) ++
+        localOuts G i (S.loc i) (arrivalsAt i (emitAt G fuel n v md S).log) :=
+  run_emits G (run_of_ok G fuel (.emit n v md) S ⟨he, hc⟩) hA i
+
+/-- Both at once, in terms of the graph-free local run `localRun` of `Proofs/NodeSem.lean`: state and emissions
+of every node are those of the node run *in isolation* over its arrival list. -/
+theorem run_is_localRun {fuel : Nat} {n : NodeId} {v : Val} {md : Meta} {S : State} (hA : Acyclic S)
+    (he : (emitAt G fuel n v md S).err = none) (hc : (emitAt G fuel n v md S).carried = none) (i : NodeId) :
+    ((emitAt G fuel n v md S).st.loc i, emitsOf i (emitAt G fuel n v md S).log) =
+      ((localRun (G i) (S.loc i) (arrivalsAt i (emitAt G fuel n v md S).log)).1,
+       (if n = i then [(v, md)] else []) ++
+         (localRun (G i) (S.loc i) (arrivalsAt i (emitAt G fuel n v md S).log)).2) := by
+  rw [localRun_eq, run_projects G hA he hc i, emits_are_local_outputs G hA he hc i]
+
+/-- Every attached branch sees the emission, siblings in attachment order: what `_emit` at `n` hands out is
+exactly the snapshot `list(self.downstreams)` taken when it starts, in that order, once each — whatever
+topology changes (`slice` ending) happen meanwhile. -/
+theorem emit_delivers_snapshot {fuel : Nat} {n : NodeId} {v : Val} {md : Meta} {S : State} (hA : Acyclic S)
+    (he : (emitAt G fuel n v md S).err = none) (hc : (emitAt G fuel n v md S).carried = none) :
+    arrivalsFrom n (emitAt G fuel n v md S).log = (S.downs n).map (fun d => (d, v, md)) :=
+  run_deliv G (run_of_ok G fuel (.emit n v md) S ⟨he, hc⟩) hA
+
+/-- **Edge consistency** (static topology: no node executes `.detach`).  For every node `u`, the arrivals that
+originate at `u` are exactly: each emission of `u`, in order, handed to each member of `downs u` in attachment
+order, before the next emission of `u` is handed to anyone. -/
+theorem edge_consistency (hG : NoDetach G) {fuel : Nat} {n : NodeId} {v : Val} {md : Meta} {S : State}
+    (hA : Acyclic S) (he : (emitAt G fuel n v md S).err = none) (hc : (emitAt G fuel n v md S).carried = none)
+    (u : NodeId) :
+    arrivalsFrom u (emitAt G fuel n v md S).log =
+      (emitsOf u (emitAt G fuel n v md S).log).flatMap (fun e => (S.downs u).map (fun d => (d, e.1, e.2))) :=
+  run_edges G hG (run_of_ok G fuel (.emit n v md) S ⟨he, hc⟩) hA u
+
+/-- Per edge: along an edge `u → d` of a static topology exactly the sequence emitted by `u` travels — nothing
+lost, nothing duplicated, nothing reordered (`d` attached once to `u`, as `OrderedWeakrefSet` guarantees). -/
+theorem edge_no_loss_dup_reorder (hG : NoDetach G) {fuel : Nat} {n : NodeId} {v : Val} {md : Meta} {S : State}
+    (hA : Acyclic S) (he : (emitAt G fuel n v md S).err = none) (hc : (emitAt G fuel n v md S).carried = none)
+    (u d : NodeId) (hd : (S.downs u).count d = 1) :
+    arriveFromTo u d (emitAt G fuel n v md S).log = emitsOf u (emitAt G fuel n v md S).log := by
+  have := edge_consistency G hG hA he hc u
+  rw [arriveFromTo_eq_filterMap, this]
+  exact (flatMap_fanout_filterMap (S.downs u) d _).trans (by rw [hd]; exact flatMap_replicate_one _)
+
+/-- ... and nothing at all travels where there is no edge. -/
+theorem no_edge_no_arrival (hG : NoDetach G) {fuel : Nat} {n : NodeId} {v : Val} {md : Meta} {S : State}
+    (hA : Acyclic S) (he : (emitAt G fuel n v md S).err = none) (hc : (emitAt G fuel n v md S).carried = none)
+    (u d : NodeId) (hd : d ∉ S.downs u) :
+    arriveFromTo u d (emitAt G fuel n v md S).log = [] := by
+  have := edge_consistency G hG hA he hc u
+  rw [arriveFromTo_eq_filterMap, this]
+  refine (flatMap_fanout_filterMap (S.downs u) d _).trans ?_
+  rw [List.count_eq_zero_of_not_mem hd]
+  simp
+
+/-- The static-topology hypothesis holds for every graph without an end-bounded `slice`
+(`.detach` is produced by `slice._check_end` only). -/
+theorem static_unless_bounded_slice (h : ∀ i a e c, G i = .slice a (some e) c → e = 0) : NoDetach G :=
+  noDetach_of_slices G h
+
+/-- **Edge consistency, general** (topology may shrink during the run: `slice` nodes ending).  What leaves `u`
+is a sub-sequence, in the same order and without repetition, of "each emission of `u` handed to each initial
+downstream of `u` in attachment order": deliveries are never duplicated, reordered or invented; the only
+possible loss is to a branch that detached itself. -/
+theorem edge_consistency_general {fuel : Nat} {n : NodeId} {v : Val} {md : Meta} {S : State}
+    (hA : Acyclic S) (he : (emitAt G fuel n v md S).err = none) (hc : (emitAt G fuel n v md S).carried = none)
+    (u : NodeId) :
+    (arrivalsFrom u (emitAt G fuel n v md S).log).Sublist
+      ((emitsOf u (emitAt G fuel n v md S).log).flatMap (fun e => (S.downs u).map (fun d => (d, e.1, e.2)))) :=
+  run_edges_sub G (run_of_ok G fuel (.emit n v md) S ⟨he, hc⟩) hA u
+
+/-- Per edge, general: what arrives at `d` from `u` is a sub-sequence of what `u` emitted (same order, no
+duplicates) — a prefix-free statement that also covers a `slice` that has ended. -/
+theorem edge_no_dup_reorder_general {fuel : Nat} {n : NodeId} {v : Val} {md : Meta} {S : State}
+    (hA : Acyclic S) (he : (emitAt G fuel n v md S).err = none) (hc : (emitAt G fuel n v md S).carried = none)
+    (u d : NodeId) (hd : (S.downs u).count d ≤ 1) :
+    (arriveFromTo u d (emitAt G fuel n v md S).log).Sublist (emitsOf u (emitAt G fuel n v md S).log) := by
+  have := (edge_consistency_general G hA he hc u).filterMap (fun x => if x.1 = d then some x.2 else none)
+  rw [← arriveFromTo_eq_filterMap] at this
+  refine this.trans ?_
+  have h2 := flatMap_fanout_filterMap (S.downs u) d (emitsOf u (emitAt G fuel n v md S).log)
+  unfold fanout at h2
+  rw [h2]
+  exact flatMap_replicate_sublist _ hd
+
+/-- Nothing arrives that was not sent along an existing edge: every arrival `d ← who` in the log goes along an
+edge of the initial topology and carries a value/metadata pair that `who` emitted in this log. -/
+theorem arrival_has_cause {fuel : Nat} {n : NodeId} {v : Val} {md : Meta} {S : State}
+    (hA : Acyclic S) (he : (emitAt G fuel n v md S).err = none) (hc : (emitAt G fuel n v md S).carried = none)
+    {d who : NodeId} {v' : Val} {md' : Meta}
+    (h : Ev.arrive d who v' md' ∈ (emitAt G fuel n v md S).log) :
+    d ∈ S.downs who ∧ Ev.emit who v' md' ∈ (emitAt G fuel n v md S).log := by
+  have h1 := (edge_consistency_general G hA he hc who).subset (mem_arrivalsFrom.2 h)
+  simp only [List.mem_flatMap, List.mem_map] at h1
+  obtain ⟨e, he1, d', hd', heq⟩ := h1
+  cases heq
+  exact ⟨hd', mem_emitsOf.1 he1⟩
+
+/-- **Depth-first, siblings in attachment order.**  After the `emit n` event and the reference-count prologue,
+the log of `_emit` at `n` is one contiguous segment per member of the downstream snapshot, in list order; the
+segment of `d` starts with `arrive d n v md` and the rest of it consists of arrivals at nodes `> d` and
+emissions of nodes `≥ d` only: everything the delivery to one sibling causes precedes the delivery to the
+next (`SegsFor` spells this out). -/
+theorem depth_first {fuel : Nat} {n : NodeId} {v : Val} {md : Meta} {S : State} (hA : Acyclic S)
+    (he : (emitAt G fuel n v md S).err = none) (hc : (emitAt G fuel n v md S).carried = none) :
+    ∃ segs : List (List Ev),
+      (emitAt G fuel n v md S).log = Ev.emit n v md :: (emitPre S n md).2 ++ segs.flatten ∧
+      SegsFor n v md (S.downs n) segs := by
+  obtain ⟨l', h1, h2⟩ := run_emit_inv G (run_of_ok G fuel (.emit n v md) S ⟨he, hc⟩)
+  obtain ⟨segs, h3, h4⟩ := run_df G h2 (hA.of_eq (by simp)) (fun d hd => hA n d hd)
+  exact ⟨segs, by simp only [interp] at h1; rw [h1, h3], h4⟩
+
+/-- On a DAG over finitely many nodes some fuel always suffices, for every value (whatever the node states
+are and whatever the user functions raise) — and from that fuel on the result no longer depends on fuel.
+So for DAGs the `err ≠ outOfFuel` part of the hypotheses above is discharged, not assumed. -/
+theorem dag_terminates {N : Nat} {S : State} (hB : ∀ u d, d ∈ S.downs u → u < d ∧ d < N)
+    (n : NodeId) (v : Val) (md : Meta) :
+    ∃ f, (emitAt G f n v md S).err ≠ some .outOfFuel ∧
+      ∀ f', f ≤ f' → emitAt G f' n v md S = emitAt G f n v md S := by
+  obtain ⟨f, hf⟩ := (term_all G N (N - n) n (Nat.le_refl _)).1 S hB v md
+  exact ⟨f, hf, fun f' hle => emitAt_fuel_mono G hle hf⟩
+
+/-- The interpreter's successful runs are exactly the derivations of the big-step relation `Run`
+(one rule per line of `_emit` / `update` / the effect programs): everything above is proved by rule induction
+on `Run`, and this equivalence is what ties those inductions to the executable model the driver runs. -/
+theorem run_iff {n : NodeId} {v : Val} {md : Meta} {S S' : State} {l : List Ev} {t : List Tok} :
+    (∃ f, emitAt G f n v md S = { st := S', log := l, toks := t, err := none, carried := none }) ↔
+      Run G (.emit n v md) S S' l t := by
+  constructor
+  · rintro ⟨f, hf⟩
+    have := run_of_ok G f (.emit n v md) S (by simp only [interp]; rw [hf]; exact ⟨rfl, rfl⟩)
+    simp only [interp] at this
+    rw [hf] at this
+    exact this
+  · exact run_complete G
+
+/-! ### Non-vacuity -/
+
+/-- fan-out and fan-in: source 0 → map inc 1, source 0 → map dbl 2, zip(1, 2) = 3 → sink 4 -/
+def exG : NodeId → Kind
+  | 0 => .source
+  | 1 => .map .inc
+  | 2 => .map .dbl
+  | 3 => .zip []
+  | _ => .sink (.sync .id)
+
+def exS : State :=
+  { loc := fun i => if i = 3 then { ups := [1, 2], bufs := [(1, []), (2, [])] } else {}
+    downs := fun i => match i with | 0 => [1, 2] | 1 => [3] | 2 => [3] | 3 => [4] | _ => [] }
+
+theorem exS_acyclic : Acyclic exS := by
+  intro u d h
+  unfold exS at h
+  simp only [] at h
+  split at h <;> simp at h <;> (unfold NodeId at *; omega)
+
+theorem exS_bounded : ∀ u d, d ∈ exS.downs u → u < d ∧ d < 5 := by
+  intro u d h
+  unfold exS at h
+  simp only [] at h
+  split at h <;> simp at h <;> (unfold NodeId at *; omega)
+
+theorem exG_static : NoDetach exG := by
+  apply noDetach_of_slices
+  intro i a e c h
+  unfold exG at h
+  split at h <;> cases h
+
+/-- the hypotheses of all theorems above hold on this run, with metadata carrying a reference counter -/
+example : (emitAt exG 100 0 (.int 5) [⟨7, some 0⟩] exS).err = none ∧
+    (emitAt exG 100 0 (.int 5) [⟨7, some 0⟩] exS).carried = none := by decide +kernel
+/-- ... so the conclusions hold of it: -/
+example (i : NodeId) : (emitAt exG 100 0 (.int 5) [] exS).st.loc i =
+    replay exG i (exS.loc i) (arrivalsAt i (emitAt exG 100 0 (.int 5) [] exS).log) :=
+  run_projects exG exS_acyclic (by decide +kernel) (by decide +kernel) i
+example (u : NodeId) : arrivalsFrom u (emitAt exG 100 0 (.int 5) [] exS).log =
+    (emitsOf u (emitAt exG 100 0 (.int 5) [] exS).log).flatMap
+      (fun e => (exS.downs u).map (fun d => (d, e.1, e.2))) :=
+  edge_consistency exG exG_static exS_acyclic (by decide +kernel) (by decide +kernel) u
+/-- ... the sink receives the zipped pair exactly once, from the zip node -/
+example : arrivalsAt 4 (emitAt exG 100 0 (.int 5) [] exS).log = [(3, .tup [.int 6, .int 10], [])] := by
+  decide +kernel
+/-- ... the zip node sees the two siblings' outputs in attachment order -/
+example : arrivalsAt 3 (emitAt exG 100 0 (.int 5) [] exS).log = [(1, .int 6, []), (2, .int 10, [])] := by
+  decide +kernel
+example : arrivalsFrom 0 (emitAt exG 100 0 (.int 5) [] exS).log = [(1, .int 5, []), (2, .int 5, [])] := by
+  decide +kernel
+/-- ... and fuel 14 is already enough while 13 is not (so `fuel_mono`'s hypothesis is neither vacuous nor
+trivially true) -/
+example : (emitAt exG 14 0 (.int 5) [] exS).err = none ∧
+    (emitAt exG 13 0 (.int 5) [] exS).err = some .outOfFuel := by decide +kernel
+
+/-- topology change during a run: source 0 → slice(0, end = 1) 1 → sink 2, and source 0 → sink 3.  The slice
+detaches itself while `_emit` at 0 is still looping; the snapshot is still served in full. -/
+def exG2 : NodeId → Kind
+  | 0 => .source
+  | 1 => .slice 0 (some 1) 1
+  | _ => .sink (.sync .id)
+
+def exS2 : State :=
+  { loc := fun i => if i = 1 then { ups := [0] } else {}
+    downs := fun i => match i with | 0 => [1, 3] | 1 => [2] | _ => [] }
+
+theorem exS2_acyclic : Acyclic exS2 := by
+  intro u d h
+  unfold exS2 at h
+  simp only [] at h
+  split at h <;> simp at h <;> (unfold NodeId at *; omega)
+
+example : (emitAt exG2 100 0 (.int 5) [] exS2).err = none ∧
+    (emitAt exG2 100 0 (.int 5) [] exS2).carried = none ∧
+    (emitAt exG2 100 0 (.int 5) [] exS2).st.downs 0 = [3] ∧
+    arrivalsFrom 0 (emitAt exG2 100 0 (.int 5) [] exS2).log = [(1, .int 5, []), (3, .int 5, [])] := by
+  decide +kernel
+
+/-- The DAG hypothesis of `run_projects` cannot be dropped: on the feedback loop
+slice 0 → filter isEven 1 → map inc 2 → slice 0, the model's `slice` is re-entered while its own update is
+running (`self._emit(x)` precedes `self.state += 1`), the outer update then overwrites the count written by the
+inner one, and the final state (count 1) is *not* the replay of the two arrivals (count 2).  (In Python
+`self.state += 1` re-reads the attribute; the model's `upd` computes every effect from the state before the
+update.  The two agree exactly when a node is not re-entered — i.e. on DAGs.) -/
+def exG3 : NodeId → Kind
+  | 0 => .slice 0 none 1
+  | 1 => .filter .isEven
+  | _ => .map .inc
+
+def exS3 : State :=
+  { loc := fun _ => {}
+    downs := fun i => match i with | 0 => [1] | 1 => [2] | 2 => [0] | _ => [] }
+
+example : (update exG3 100 0 9 (.int 0) [] exS3).err = none ∧
+    (update exG3 100 0 9 (.int 0) [] exS3).carried = none ∧
+    ((update exG3 100 0 9 (.int 0) [] exS3).st.loc 0).cnt = 1 ∧
+    (replay exG3 0 (exS3.loc 0) (arrivalsAt 0 (update exG3 100 0 9 (.int 0) [] exS3).log)).cnt = 2 := by
+  decide +kernel
+
 end StreamzVerif.Graph
